@@ -182,7 +182,7 @@ CHECK = {
     "property": "C19",
     "props": "Props/C19.v",
     "theorems": ["c19_spec_refl", "c19_spec_sym", "c19_spec_trans", "c19_dispatch", "c19_name_eq",
-                 "c19_covered_partial", "c19_char_partial", "c19_laws_partial", "c19_set", "c19_set_partial",
+                 "c19_char", "c19_total", "c19_laws", "c19_octetwise", "c19_set",
                  "c19_sym_refuted_prefix"],
     "allowed_axioms": [],
     "correspondence": {"impl_bin": "impl_c19", "extract": "Extract/ExC19.v", "driver": "run_c19.ml"},
@@ -206,7 +206,7 @@ CHECK = {
         "correspondence: checks/c19.py generators, harness/src/bin/impl_c19.rs (catch_unwind), ocaml/run_c19.ml, line diff in tools/qv.py",
         "tools/gen/rdata.py re-extracts the equals dispatcher into Gen/RdataTables.v",
         "the hand-written bodies of names_equal/test_n_name_fields/equals_as_* and of RdataSetOwned in Model/RdataM.v, Model/RdataSetM.v "
-        "(differentially tested); for SOA, MINFO, MX, CH A, IN SRV the link model = characterisation is tested, not proved",
+        "(differentially tested)",
         "the characterisation as transcribed in Spec/RdataEqS.v",
         "not verified: the unsafe slice casts of RdataSet, Vec growth, native-endian u16 (the model is parametric in the byte order)",
     ],
@@ -218,11 +218,13 @@ MANIFEST = {
     "level_text": ("Coq theorems (no axioms): the characterisation of RDATA equality (octet-wise, names of the pre-RFC 3597 name-bearing "
                    "types label-wise case-insensitive when both RDATA are valid) is an equivalence for every class and type; the equals "
                    "dispatcher re-extracted from the source sends exactly those types to name-aware handlers; the model of the repaired "
-                   "Rdata::equals equals the characterisation (hence is total, reflexive, symmetric, transitive) for every (class,type) "
-                   "except SOA, MINFO, MX, CH A, IN SRV; RdataSetOwned::from_iter is nodup_by of equals in insertion order for either byte "
-                   "order. The pre-fix code is refuted (asymmetric). For the five remaining handlers the same statement is checked by the "
-                   "differential run (~31k quick cases incl. the three laws evaluated on the implementation) against the proved-equivalence oracle."),
-    "level_note": ("Partial: model = characterisation is not proved for equals_as_{soa,minfo,mx,in_srv,ch_a}. "
+                   "Rdata::equals equals the characterisation for EVERY class and type and every pair of octet strings (all seven handlers: "
+                   "names_equal, equals_as_{soa,minfo,mx,in_srv,ch_a}, bitwise), hence is total (never panics), reflexive, symmetric and "
+                   "transitive on the model itself and octet-wise whenever either RDATA is malformed; RdataSetOwned::from_iter is nodup_by "
+                   "of that characterisation in insertion order for either byte order, with no hypothesis on equals. The pre-fix code is "
+                   "refuted (asymmetric). The differential run (~31k quick cases incl. the three laws evaluated on the implementation) ties "
+                   "the model to the crate."),
+    "level_note": ("Full statement proved on the model. "
                    "Trusted: Coq kernel, extraction, hand-written model bodies (differentially tested), table extractor."),
     "technique": "machine-checked proof in Coq (equality = characterisation, hence an equivalence; set = nodup) + model/implementation correspondence check",
     "design_ref": "DESIGN.md §4 C19",
